@@ -57,12 +57,15 @@ structure St where
   inv   : Tid → Nat
   runs  : Tid → Nat             -- executions of the caller's own fn in the current call
   owner : Nat → Tid             -- who allocated the wait group
+  ekey   : Nat → Key            -- the key it was allocated for
+  fstart : Nat → Option Nat     -- clock when the owner's fn started / ended (one execution per wait group)
+  fend   : Nat → Option Nat
   rets  : List LRet
 
 def init : St :=
   { lock := none, m := fun _ => none, wg := fun _ => 0, next := 0, pc := fun _ => .idle, key := fun _ => 0,
     reg := fun _ => 0, tmp := fun _ => 0, now := 0, inv := fun _ => 0, runs := fun _ => 0, owner := fun _ => 0,
-    rets := [] }
+    ekey := fun _ => 0, fstart := fun _ => none, fend := fun _ => none, rets := [] }
 
 def step (s : St) (t : Tid) (x : Nat) : Option St :=
   match s.pc t with
@@ -76,12 +79,16 @@ def step (s : St) (t : Tid) (x : Nat) : Option St :=
   | .b2 => some { s with lock := none, pc := upd s.pc t .b3, now := s.now + 1 }
   | .b3 => if s.wg (s.reg t) = 0 then some { s with pc := upd s.pc t .b0, now := s.now + 1 } else none
   | .c0 => some { s with reg := upd s.reg t s.next, next := s.next + 1, wg := upd s.wg s.next 0,
-                         owner := upd s.owner s.next t, pc := upd s.pc t .c1, now := s.now + 1 }
+                         owner := upd s.owner s.next t, ekey := upd s.ekey s.next (s.key t),
+                         fstart := upd s.fstart s.next none, fend := upd s.fend s.next none,
+                         pc := upd s.pc t .c1, now := s.now + 1 }
   | .c1 => some { s with wg := upd s.wg (s.reg t) (s.wg (s.reg t) + 1), pc := upd s.pc t .c2, now := s.now + 1 }
   | .c2 => some { s with m := upd s.m (s.key t) (some (s.reg t)), pc := upd s.pc t .c3, now := s.now + 1 }
   | .c3 => some { s with lock := none, pc := upd s.pc t .f0, now := s.now + 1 }
-  | .f0 => some { s with runs := upd s.runs t (s.runs t + 1), pc := upd s.pc t .f1, now := s.now + 1 }
-  | .f1 => some { s with tmp := upd s.tmp t x, pc := upd s.pc t .e0, now := s.now + 1 }
+  | .f0 => some { s with runs := upd s.runs t (s.runs t + 1), fstart := upd s.fstart (s.reg t) (some s.now),
+                         pc := upd s.pc t .f1, now := s.now + 1 }
+  | .f1 => some { s with tmp := upd s.tmp t x, fend := upd s.fend (s.reg t) (some s.now), pc := upd s.pc t .e0,
+                         now := s.now + 1 }
   | .e0 => if s.lock = none then some { s with lock := some t, pc := upd s.pc t .e1, now := s.now + 1 } else none
   | .e1 => some { s with m := upd s.m (s.key t) none, pc := upd s.pc t .e2, now := s.now + 1 }
   | .e2 => some { s with lock := none, pc := upd s.pc t .e3, now := s.now + 1 }
